@@ -33,6 +33,8 @@ def pwl_items(tier):
                               layout=layout, split=split))
     for units in (1, 2, 3):
       items.append(dict(kind="learned", kp=kp, units=units))
+    # logits so far apart that softmax underflows and a piece gets length exactly 0.0
+    items.append(dict(kind="learned", kp=kp, units=1, letters=(-70.0, 0.0, 70.0)))
   return items
 
 
@@ -173,6 +175,10 @@ def learned_case(item, ctx=None):
     layer.interpolation_logits.assign(L.astype(np.float32))
     out = _call(layer, xs[:, None])
     kin = np.asarray(layer.keypoints_inputs(), dtype=np.float64)  # (n, units)
+    if not np.all(np.isfinite(out)):
+      msgs.append("logits %s: non-finite output %s at inputs %s" %
+                  (L.tolist(), out[~np.isfinite(out).all(axis=1)][:2].tolist(),
+                   xs[~np.isfinite(out).all(axis=1)][:4].tolist()))
     for u in range(units):
       kpu = rp.learned_keypoints(kp, L[u])
       if not (np.abs(kin[:, u] - kpu).max() <= 1e-4 * max(1, abs(kp[-1] - kp[0]))):
